@@ -221,8 +221,8 @@ func PathGroundsTo(fn *ssa.Function, limit int, want func(*ssa.Return) bool) (gr
 	onPath := map[*ssa.BasicBlock]bool{}
 	count := 0
 	ok = true
-	var walk func(b *ssa.BasicBlock, conds []string)
-	walk = func(b *ssa.BasicBlock, conds []string) {
+	var walk func(b, pred *ssa.BasicBlock, conds []string)
+	walk = func(b, pred *ssa.BasicBlock, conds []string) {
 		if onPath[b] || !ok {
 			return
 		}
@@ -262,27 +262,146 @@ func PathGroundsTo(fn *ssa.Function, limit int, want func(*ssa.Return) bool) (gr
 				}
 				break
 			}
-			if _, isPhi := cond.(*ssa.Phi); isPhi {
-				// the join of a short-circuit expression: the outcome is already determined by the path taken
-				walk(b.Succs[0], conds)
-				walk(b.Succs[1], conds)
-			} else {
-				walk(b.Succs[0], append(append([]string{}, conds...), CondDesc(cond, !neg)))
-				walk(b.Succs[1], append(append([]string{}, conds...), CondDesc(cond, neg)))
+			cond, fixed := resolvePhiCond(cond, b, pred)
+			switch {
+			case fixed >= 0:
+				// the join of a short-circuit expression reached over an edge that carries a constant
+				if (fixed == 1) != neg {
+					walk(b.Succs[0], b, conds)
+				} else {
+					walk(b.Succs[1], b, conds)
+				}
+			default:
+				walk(b.Succs[0], b, append(append([]string{}, conds...), CondDesc(cond, !neg)))
+				walk(b.Succs[1], b, append(append([]string{}, conds...), CondDesc(cond, neg)))
 			}
 			onPath[b] = false
 			return
 		}
 		onPath[b] = true
 		for _, s := range b.Succs {
-			walk(s, conds)
+			walk(s, b, conds)
 		}
 		onPath[b] = false
 	}
-	walk(fn.Blocks[0], nil)
+	walk(fn.Blocks[0], nil, nil)
 	for k := range set {
 		grounds = append(grounds, k)
 	}
 	sort.Strings(grounds)
 	return grounds, ok
+}
+
+// PathSummaries enumerates the acyclic entry-to-return paths of fn like PathGrounds and renders each as
+// "conds ⇒ events": the set of branch outcomes taken and the sequence of events (as described by eventOf, "" = none)
+// of the instructions executed on the path.
+func PathSummaries(fn *ssa.Function, limit int, eventOf func(ssa.Instruction) string) (out []string, ok bool) {
+	if len(fn.Blocks) == 0 {
+		return nil, false
+	}
+	set := map[string]bool{}
+	onPath := map[*ssa.BasicBlock]bool{}
+	count := 0
+	ok = true
+	var walk func(b, pred *ssa.BasicBlock, conds, events []string)
+	walk = func(b, pred *ssa.BasicBlock, conds, events []string) {
+		if onPath[b] || !ok || len(b.Instrs) == 0 {
+			return
+		}
+		for _, in := range b.Instrs {
+			if e := eventOf(in); e != "" {
+				events = append(append([]string{}, events...), e)
+			}
+		}
+		last := b.Instrs[len(b.Instrs)-1]
+		switch t := last.(type) {
+		case *ssa.Return:
+			count++
+			if count > limit {
+				ok = false
+				return
+			}
+			m := map[string]bool{}
+			for _, c := range conds {
+				m[c] = true
+			}
+			ks := make([]string, 0, len(m))
+			for k := range m {
+				ks = append(ks, k)
+			}
+			sort.Strings(ks)
+			set[strings.Join(ks, " ∧ ")+" ⇒ "+strings.Join(events, " ; ")] = true
+			return
+		case *ssa.Panic:
+			return
+		case *ssa.If:
+			onPath[b] = true
+			cond := t.Cond
+			neg := false
+			for {
+				if u, isNot := cond.(*ssa.UnOp); isNot && u.Op == token.NOT {
+					cond, neg = u.X, !neg
+					continue
+				}
+				break
+			}
+			cond, fixed := resolvePhiCond(cond, b, pred)
+			switch {
+			case fixed >= 0:
+				if (fixed == 1) != neg {
+					walk(b.Succs[0], b, conds, events)
+				} else {
+					walk(b.Succs[1], b, conds, events)
+				}
+			default:
+				walk(b.Succs[0], b, append(append([]string{}, conds...), CondDesc(cond, !neg)), events)
+				walk(b.Succs[1], b, append(append([]string{}, conds...), CondDesc(cond, neg)), events)
+			}
+			onPath[b] = false
+			return
+		}
+		onPath[b] = true
+		for _, s := range b.Succs {
+			walk(s, b, conds, events)
+		}
+		onPath[b] = false
+	}
+	walk(fn.Blocks[0], nil, nil, nil)
+	for k := range set {
+		out = append(out, k)
+	}
+	sort.Strings(out)
+	return out, ok
+}
+
+// resolvePhiCond: a branch condition that is a phi of the branching block (the join of `a && b` / `a || b`) is replaced by
+// the value carried over the edge the path came in by: a constant fixes the outcome (fixed = 0/1), anything else is the
+// condition tested on this path (fixed = -1).
+func resolvePhiCond(cond ssa.Value, b, pred *ssa.BasicBlock) (ssa.Value, int) {
+	for depth := 0; depth < 4; depth++ {
+		phi, ok := cond.(*ssa.Phi)
+		if !ok || phi.Block() != b || pred == nil {
+			return cond, -1
+		}
+		found := false
+		for i, p := range b.Preds {
+			if p == pred && i < len(phi.Edges) {
+				cond = phi.Edges[i]
+				found = true
+				break
+			}
+		}
+		if !found {
+			return cond, -1
+		}
+		if c, isConst := cond.(*ssa.Const); isConst && c.Value != nil {
+			switch c.Value.ExactString() {
+			case "true":
+				return cond, 1
+			case "false":
+				return cond, 0
+			}
+		}
+	}
+	return cond, -1
 }
